@@ -23,7 +23,14 @@ type Deviation struct {
 	// Restart: the instance is constructed like a node process started on existing data - InitChain (and with it
 	// every module's InitGenesis) never ran in it; whatever a module sets up in memory only at genesis is absent.
 	Restart bool
+	// Zone: the host's local time zone (nil = the zone the process started with)
+	Zone *time.Location
 }
+
+var hostZone = time.Local
+
+// a host east of Greenwich by a non-integral number of hours: nothing a chain computes may depend on it
+var otherZone = time.FixedZone("UTC+05:45", 5*3600+45*60)
 
 // Deviations used by the determinism check: every replica is cold (fresh instance = fresh process-local state);
 // clock offsets straddle every duration threshold in the code (5 minutes in the oracle module, days for
@@ -33,13 +40,14 @@ type Deviation struct {
 // every map with two or more entries); the higher bits vary the start bucket / offset of larger maps.
 var Deviations = []Deviation{
 	{Name: "restarted-node+clock+7m+seed1", Clock: 7 * time.Minute, Seed: 1, Cold: true, Restart: true},
-	{Name: "cold+clock-7m+seed9", Clock: -7 * time.Minute, Seed: 9, Cold: true},
+	{Name: "cold+clock-7m+seed9+zone", Clock: -7 * time.Minute, Seed: 9, Cold: true, Zone: otherZone},
 	{Name: "cold+clock+400d+seed17", Clock: 400 * 24 * time.Hour, Seed: 17, Cold: true},
 }
 
 var singleDeviations = []Deviation{
 	{Name: "cold-instance", Cold: true},
 	{Name: "restarted-node", Cold: true, Restart: true},
+	{Name: "host-time-zone", Cold: true, Zone: otherZone},
 	{Name: "host-clock", Clock: 400 * 24 * time.Hour, Cold: true},
 	{Name: "host-clock", Clock: 7 * time.Minute, Cold: true},
 	{Name: "host-clock", Clock: -7 * time.Minute, Cold: true},
@@ -62,11 +70,17 @@ func init() {
 }
 
 func setEnv(d Deviation) {
+	if d.Zone != nil {
+		time.Local = d.Zone
+	} else {
+		time.Local = hostZone
+	}
 	envseam.SetClockOffset(d.Clock)
 	envseam.SetMapSeed(true, d.Seed)
 }
 
 func baselineEnv() {
+	time.Local = hostZone
 	envseam.SetClockOffset(0)
 	envseam.SetMapSeed(true, 0)
 }
@@ -138,6 +152,8 @@ type replicaResult struct {
 	stores  map[string][]byte
 	last    string
 	enabled bool
+	results []byte // digest of the transaction / block results of the transition
+	first   string
 }
 
 func wholeState(e *Env, ctx sdk.Context) ([]byte, map[string][]byte) {
@@ -201,9 +217,10 @@ func (r *Replicas) runReplica(e *Env, pre *State, op Op, d Deviation) replicaRes
 	if cop == nil {
 		return replicaResult{enabled: false}
 	}
+	ce.Results = &ResultLog{}
 	cd.Apply(ce, cs, *cop)
 	h, per := wholeState(ce, cs.Ctx)
-	return replicaResult{hash: h, stores: per, last: cs.Last, enabled: true}
+	return replicaResult{hash: h, stores: per, last: cs.Last, enabled: true, results: ce.Results.Sum(), first: ce.Results.First}
 }
 
 func (r *Replicas) Apply(e *Env, s *State, op Op) []Finding {
@@ -233,33 +250,59 @@ func (r *Replicas) Apply(e *Env, s *State, op Op) []Finding {
 	// attribution re-runs below (a branch taken from s would see later writes to s); s adopts the result at the end
 	post := s.Fork()
 	post.fork = s.fork
+	e.Results = &ResultLog{}
 	r.Inner.Apply(e, post, op)
+	res0, first0 := e.Results.Sum(), e.Results.First
+	e.Results = nil
 	h0, per0 := wholeState(e, post.Ctx)
+	same := func(rep replicaResult) bool {
+		return rep.enabled && bytes.Equal(rep.hash, h0) && rep.last == post.Last && bytes.Equal(rep.results, res0)
+	}
 	var fs []Finding
 	for i, rep := range reps {
-		if rep.enabled && bytes.Equal(rep.hash, h0) && rep.last == post.Last {
+		if same(rep) {
 			continue
 		}
 		// attribute: which single dimension reproduces the difference, and where it shows
 		dim, where := "combined", describeDiff(per0, rep, post.Last)
+		if where == "header" && !bytes.Equal(rep.results, res0) {
+			where = "results"
+		}
 		for _, sd := range singleDeviations {
 			if !envseam.Controlled && sd.Name != "cold-instance" && sd.Name != "restarted-node" {
 				continue
 			}
 			x := r.runReplica(e, s, op, sd)
-			if !x.enabled || !bytes.Equal(x.hash, h0) || x.last != post.Last {
+			if !same(x) {
 				dim, where = sd.Name, describeDiff(per0, x, post.Last)
+				if where == "header" {
+					where = "results"
+					rep.first = x.first
+				}
 				break
 			}
 		}
 		fs = append(fs, F(fmt.Sprintf("%s/replica-differs/%s/%s/%s", r.Property, dim, where, opKind(op.Name)),
-			"transition %s from the same state differs between the baseline and replica %s (attributed to %s): %s", op.Name, devs[i].Name, dim, where))
+			"transition %s from the same state differs between the baseline and replica %s (attributed to %s): %s%s", op.Name, devs[i].Name, dim, where, resultsNote(where, first0, rep.first)))
 		break
 	}
 	depth := s.Depth
 	*s = *post
 	s.Depth = depth
 	return fs
+}
+
+func resultsNote(where, a, b string) string {
+	if where != "results" {
+		return ""
+	}
+	cut := func(s string) string {
+		if len(s) > 400 {
+			return s[:400] + "..."
+		}
+		return s
+	}
+	return fmt.Sprintf(" (stores identical; first result of the transition: baseline %q, replica %q)", cut(a), cut(b))
 }
 
 func describeDiff(per0 map[string][]byte, rep replicaResult, last0 string) string {
